@@ -55,7 +55,9 @@ extern int mpt_path_add(MPT_STRUCT(path) *path, int add)
 		/* set leading/trailing/next size parameter */
 		if (len) {
 			data[len - 1] = add;
-		} else {
+		}
+		/* first element of the path itself (the buffer may hold a consumed part) */
+		if (!path->len) {
 			path->first = add;
 		}
 		/* set next part */
@@ -77,8 +79,9 @@ extern int mpt_path_add(MPT_STRUCT(path) *path, int add)
 		/* change path assign to separator */
 		if (len) {
 			data[len - 1] = path->sep;
-		} else {
-			/* length of first element is limited to 8 bit */
+		}
+		/* first element of the path itself; its length is limited to 8 bit */
+		if (!path->len) {
 			path->first = (add > UINT8_MAX) ? 0 : add;
 		}
 		/* set next part */
